@@ -206,15 +206,15 @@ def epoch_spec(prop, tier):
                 ep(2, (), 0, 900, 120, ("--histories", "8"), "sequential histories depth 8")]
     if prop == "C17":
         if q:
-            return [ep(1, ("list1", "gen1s"), -1), ep(2, ("list1", "list2"), 2)]
-        return [ep(1, ("list1", "gen1"), -1, 900, 600), ep(2, ("list1",), -1, 900, 900), ep(2, ("list2", "public", "gen2"), 3, 900, 900),
+            return [ep(1, ("list1", "gen1s"), -1), ep(1, ("recycle17",), 3), ep(2, ("list1", "list2"), 2)]
+        return [ep(1, ("list1", "gen1"), -1, 900, 600), ep(1, ("recycle17",), -1, 600, 600), ep(2, ("recycle17",), 4, 600, 600), ep(2, ("list1",), -1, 900, 900), ep(2, ("list2", "public", "gen2"), 3, 900, 900),
                 ep(3, ("list1", "list2"), 3, 600, 600)]
     if prop == "C20":
         if q:
-            return [ep(2, (), 0, 80, 30, ("--histories", "6"), "sequential histories (incl. thread exits) depth 6"), ep(2, ("list1", "recreate"), 2)]
+            return [ep(2, (), 0, 80, 30, ("--histories", "6"), "sequential histories (incl. thread exits) depth 6"), ep(2, ("list1", "list2", "recreate", "recycle17"), 2)]
         return [ep(2, (), 0, 1200, 120, ("--histories", "9"), "sequential histories (incl. thread exits) depth 9"),
                 ep(1, (), 0, 600, 120, ("--histories", "11"), "sequential histories depth 11 (1 worker)"),
-                ep(2, ("list1", "list2", "recreate"), 3, 600, 300)]
+                ep(2, ("list1", "list2", "recreate", "recycle17", "pin2", "gen2"), 3, 600, 300)]
     return None
 
 
